@@ -69,7 +69,8 @@ def weights(rng):
         return ""
     if k < 0.8:
         return ",".join(rng.choice(["1", "2", "0.5", "1.0", "3", ".5", "-1", "0"]) for _ in range(rng.randint(1, 4)))
-    return rng.choice(["a", "1,b", "1;2", "1,,2", ",", "1 ,2", "--1", "1.2.3"])
+    # (spellings ParseFloat accepts but that have no finite mean are refused since D17 / D28)
+    return rng.choice(["a", "1,b", "1;2", "1,,2", ",", "1 ,2", "--1", "1.2.3", "Inf", "inf,1", "1,-Inf", "NaN", "1,nan", "+Inf,2,3"])
 
 
 def calc_case(rng):
